@@ -902,6 +902,8 @@ def np_array_equal(interp, st, args, kwargs, node):
         vars_ = [z3.Int(V.fresh_name("q")) for _ in a.dims]
         rng = z3.And(*[z3.And(x >= 0, x < to_z3(d)) for x, d in zip(vars_, a.dims)])
         same_shape = b_and(*[M.s_cmp(ast.Eq(), x, y) for x, y in zip(a.dims, b.dims)])
+        if __import__("os").environ.get("PYVC_DEBUG_FALSE"):
+            print("array_equal dims", a.dims, b.dims, same_shape)
         return b_and(same_shape, z3.ForAll(vars_, z3.Implies(rng, a.select(vars_) == b.select(vars_))))
     raise Outside("np.array_equal of mixed representations", node)
 
@@ -1312,12 +1314,19 @@ def m_list_pop(interp, st, base, base_node, args, kwargs, node):
     M._oblige_index(interp, st, ok, node)
     v = base.get(j)
     k = z3.Int(V.fresh_name("k"))
+    zj = to_z3(j)
     arrs = []
     for a in base.arrs:
         if a is None or isinstance(a, str):
             arrs.append(a)
         else:
-            arrs.append(z3.Lambda([k], z3.If(k < to_z3(j), z3.Select(a, k), z3.Select(a, k + 1))))
+            # the shifted array is a fresh symbol defined by axioms that E-matching can use in both directions
+            b = z3.Const(V.fresh_name("popped"), a.sort())
+            st.assume(z3.ForAll([k], z3.Implies(k < zj, z3.Select(b, k) == z3.Select(a, k)), patterns=[z3.Select(b, k)]))
+            st.assume(z3.ForAll([k], z3.Implies(k < zj, z3.Select(b, k) == z3.Select(a, k)), patterns=[z3.Select(a, k)]))
+            st.assume(z3.ForAll([k], z3.Implies(k >= zj, z3.Select(b, k) == z3.Select(a, k + 1)), patterns=[z3.Select(b, k)]))
+            st.assume(z3.ForAll([k], z3.Implies(k > zj, z3.Select(a, k) == z3.Select(b, k - 1)), patterns=[z3.Select(a, k)]))
+            arrs.append(b)
     new = SymList(base.tmpl, arrs, M.s_sub(n, 1))
     _mutate(interp, st, base_node, new, node)
     return v
